@@ -707,3 +707,15 @@ def _register_shared():
 
 
 _register_shared()
+
+
+
+# trees cached under one closed side are never reused for the other one (the C07 unit on BinnedTrees.build for the priors /
+# requests that differ only in the closed side, run here as well)
+def _register_shared_cache():
+    from . import C07 as _C07
+    unit(P, "BinnedTrees.build", fuc=["yaw.catalog.trees:BinnedTrees.build", "yaw.catalog.trees:BinnedTrees.__init__", "yaw.catalog.trees:BinnedTrees.binning_equal"],
+         cases=[dict(prior=a, request=b) for a in ("left", "right") for b in ("left", "right")])(_C07.u_build)
+
+
+_register_shared_cache()
